@@ -34,6 +34,13 @@ func (s *LStack[T]) Push(item T) {
 	s.mu.Lock()
 	defer s.mu.Unlock()
 
+	// An empty stack still holds the list's mandatory head node: reuse it.
+	if s.n == 0 {
+		s.n = 1
+		s.list.Replace(s.list.First(), item)
+		return
+	}
+
 	s.n++
 	s.list.Append(item)
 }
@@ -43,6 +50,18 @@ func (s *LStack[T]) Push(item T) {
 func (s *LStack[T]) Pop() (item T) {
 	s.mu.Lock()
 	defer s.mu.Unlock()
+
+	if s.n == 0 {
+		return item
+	}
+	// The list cannot drop its only node: hand out its value and reset it.
+	if s.n == 1 {
+		var zero T
+		item = s.list.First()
+		s.list.Replace(item, zero)
+		s.n = 0
+		return item
+	}
 
 	node := s.list.Pop()
 	if s.n > 0 {
@@ -64,6 +83,10 @@ func (s *LStack[T]) Peek() T {
 func (s *LStack[T]) Search(item T) bool {
 	s.mu.RLock()
 	defer s.mu.RUnlock()
+
+	if s.n == 0 {
+		return false
+	}
 
 	if _, ok := s.list.Find(item); ok {
 		return true
